@@ -115,3 +115,15 @@ Proof.
     rewrite (N r b R Eb). reflexivity.
   - rewrite andb_false_r. apply (IH b); [exact R|lia].
 Qed.
+
+Lemma flat_map_ext_in' {A B} (f g : A -> list B) l : (forall x, In x l -> f x = g x) -> flat_map f l = flat_map g l.
+Proof.
+  induction l as [|x r IH]; intros H; [reflexivity|]. cbn [flat_map]. rewrite (H x) by (left; reflexivity).
+  f_equal. apply IH. intros y Hy. apply H. right. exact Hy.
+Qed.
+
+Lemma map_flat_map {A B C} (f : B -> C) (h : A -> list B) l : map f (flat_map h l) = flat_map (fun x => map f (h x)) l.
+Proof. induction l as [|x r IH]; [reflexivity|]. cbn [flat_map]. rewrite map_app, IH. reflexivity. Qed.
+
+Lemma zrange_shift a n : zrange a n = map (Z.add a) (zrange 0 n).
+Proof. rewrite (zrange_seq a), (zrange_seq 0), map_map. apply map_ext. intros i. lia. Qed.
